@@ -378,6 +378,9 @@ def victor_purpura_pair_dist(
             return torch.tensor([float(t0.numel() + t1.numel())], device=t0.device)
         else:
             cost = torch.tensor([float(cost)], device=t0.device)
+    elif not cost.is_floating_point():
+        # an integer cost tensor would make the grid (and every shift cost) integer
+        cost = cost.to(dtype=torch.get_default_dtype())
 
     # create grid for Needleman–Wunsch
     tckwargs = {"dtype": cost.dtype, "device": cost.device}
